@@ -71,7 +71,7 @@ static int walk_schema(const ref_schema_elem* s, int n, int idx, int def, int re
     int nc = e->has_num_children ? e->num_children : 0;
     if (nc < 0) return -1;
     if (nc == 0 && idx > 0) {
-        if (out->nleaves >= 512) return -1;
+        if (out->nleaves >= 4096) return -1;
         out->leaf_schema_idx[out->nleaves] = idx; out->max_def[out->nleaves] = def; out->max_rep[out->nleaves] = rep; out->nleaves++;
         return idx + 1;
     }
